@@ -328,6 +328,71 @@ func execOp(s *Sexp) string {
 		return execJRT(s)
 	case "jdeep":
 		return execJDeep(s)
+	case "ptrkeys":
+		// (ptrkeys N): maps with POINTER keys (legal, but outside the value model: keys are identities):
+		// N decodes on one instance into fresh variables; every result must keep its own contents and
+		// its own key objects. Oracle only.
+		n, err := strconv.Atoi(arg(1))
+		if err != nil || n < 1 || n > 64 {
+			return "bad-op"
+		}
+		return guard(func() string {
+			type holder struct {
+				M map[*string]int   `plenc:"1"`
+				N map[*int32]string `plenc:"2"`
+				P map[*string]int   `plenc:"3,proto"`
+			}
+			p := &plenc.Plenc{}
+			p.RegisterDefaultCodecs()
+			var outs []*holder
+			for i := 0; i < n; i++ {
+				in := holder{M: map[*string]int{}, N: map[*int32]string{}, P: map[*string]int{}}
+				for k := 0; k <= i%3; k++ {
+					ks := fmt.Sprintf("key-%d-%d", i, k)
+					ki := int32(i*10 + k + 1)
+					in.M[&ks] = i + 1
+					in.N[&ki] = ks
+					ks2 := ks + "p"
+					in.P[&ks2] = i + 7
+				}
+				data, err := p.Marshal(nil, &in)
+				if err != nil {
+					return "err"
+				}
+				out := &holder{}
+				if err := p.Unmarshal(data, out); err != nil {
+					return "err"
+				}
+				outs = append(outs, out)
+			}
+			seen := map[*string]bool{}
+			for i, out := range outs {
+				want := i%3 + 1
+				if len(out.M) != want || len(out.N) != want || len(out.P) != want {
+					return fmt.Sprintf("ok wrong: decode %d has %d/%d/%d entries, want %d", i, len(out.M), len(out.N), len(out.P), want)
+				}
+				for k, v := range out.M {
+					if k == nil || !strings.HasPrefix(*k, fmt.Sprintf("key-%d-", i)) || v != i+1 {
+						return fmt.Sprintf("ok wrong: decode %d now holds a key/value of another decode", i)
+					}
+					if seen[k] {
+						return "ok wrong: two decoded maps share a key object"
+					}
+					seen[k] = true
+				}
+				for k, v := range out.N {
+					if k == nil || int(*k)/10 != i || !strings.HasPrefix(v, fmt.Sprintf("key-%d-", i)) {
+						return fmt.Sprintf("ok wrong: decode %d (int keys) now holds a key/value of another decode", i)
+					}
+				}
+				for k, v := range out.P {
+					if k == nil || !strings.HasPrefix(*k, fmt.Sprintf("key-%d-", i)) || v != i+7 {
+						return fmt.Sprintf("ok wrong: decode %d (proto map) now holds a key/value of another decode", i)
+					}
+				}
+			}
+			return "ok"
+		})
 	case "internmany":
 		// (internmany N): N distinct values, then a sample of them again, through ONE interned field
 		// (far more distinct values than the histories the model follows): oracle only
